@@ -148,6 +148,9 @@ func (g *Gen) atom(b *BaseType, col string) (Atom, bool) {
 	case "boolean":
 		return ABool(g.pick(2) == 0), true
 	case "string":
+		if col == "sa" || col == "sb" {
+			return AStr([]string{"", "a", "b", "ab", "ba", "aa"}[g.pick(6)]), true
+		}
 		if isIndexLike(col) {
 			return AStr(fmt.Sprintf("n%d", g.pick(14))), true
 		}
@@ -322,7 +325,7 @@ func (g *Gen) rowFor(t *Table, full bool) (map[string]any, bool) {
 		c := t.Columns[cn]
 		need := c.Type.Min > 0 && c.Type.Key.RefTable != "" // required reference
 		needMin := !c.Type.IsMap() && c.Type.Min > 0 && !c.Type.IsScalar()
-		if !full && !need && !needMin && !isIndexLike(cn) && cn != "ia" && !g.chance(450) {
+		if !full && !need && !needMin && !isIndexLike(cn) && cn != "ia" && cn != "sa" && cn != "sb" && !g.chance(450) {
 			continue
 		}
 		v, ok := g.value(c)
